@@ -79,11 +79,37 @@ pub fn decompress(enc: Enc, z: &[u8]) -> Result<Vec<u8>, String> {
             d.finish().map_err(|e| e.to_string())
         }
         Enc::Deflate => {
-            let mut d = flate2::write::ZlibDecoder::new(Vec::new());
-            d.write_all(z).map_err(|e| e.to_string())?;
-            d.finish().map_err(|e| e.to_string())
+            // the write-side zlib decoder silently accepts a truncated stream: drive the raw
+            // decompressor and insist on StreamEnd with every input byte consumed
+            let mut d = flate2::Decompress::new(true);
+            let mut out: Vec<u8> = Vec::with_capacity(z.len() * 4 + 64);
+            loop {
+                let before_in = d.total_in();
+                let before_out = d.total_out();
+                if out.capacity() - out.len() < 4096 {
+                    out.reserve(out.len().max(4096));
+                }
+                let st = d
+                    .decompress_vec(&z[d.total_in() as usize..], &mut out, flate2::FlushDecompress::None)
+                    .map_err(|e| e.to_string())?;
+                match st {
+                    flate2::Status::StreamEnd => break,
+                    _ => {
+                        if d.total_in() == before_in && d.total_out() == before_out && out.capacity() > out.len() {
+                            return Err("truncated zlib stream".into());
+                        }
+                    }
+                }
+            }
+            if d.total_in() as usize != z.len() {
+                return Err("trailing bytes after the zlib stream".into());
+            }
+            Ok(out)
         }
-        Enc::Zstd => zstd::stream::decode_all(z).map_err(|e| e.to_string()),
+        Enc::Zstd => {
+            let v = zstd::stream::decode_all(z).map_err(|e| e.to_string())?;
+            Ok(v)
+        }
     }
 }
 
@@ -534,6 +560,13 @@ mod tests {
                     assert!(decompress(o, &z).is_err());
                 }
             }
+            // truncated streams are rejected
+            for cut in 1..z.len() {
+                assert!(decompress(e, &z[..cut]).is_err(), "{:?} truncated at {}", e, cut);
+            }
+            // large outputs
+            let big: Vec<u8> = (0..100_000u32).map(|i| (i % 7) as u8).collect();
+            assert_eq!(decompress(e, &compress(e, &big)).unwrap(), big);
         }
     }
 }
